@@ -312,11 +312,11 @@ func Read(r io.Reader) (*Font, error) {
 	}
 
 	if ver, ok := getNameTableVersion(nameTable); ok {
-		info.Version = ver
+		info.Version = ver.Round()
 	} else if headInfo != nil {
 		info.Version = headInfo.FontRevision.Round()
 	} else if ver, ok := getCFFVersion(fontInfo); ok {
-		info.Version = ver
+		info.Version = ver.Round()
 	}
 	if headInfo != nil {
 		info.CreationTime = headInfo.Created
